@@ -3,6 +3,7 @@ package rules
 import (
 	"fmt"
 	"go/token"
+	"go/types"
 	"strings"
 
 	"golang.org/x/tools/go/ssa"
@@ -332,13 +333,140 @@ func isPeerPhi(q *ssa.Phi) bool {
 	return ok
 }
 
-// peerBounded recognises the peer correction: phi[raw (flag=false), clamp(raw, PCI*drift) (flag=...)]
-// with a sibling flag phi in the same block that is constant false on the raw edge.
-func peerBounded(v ssa.Value) (raw ssa.Value, flag *ssa.Phi, ok bool) {
-	ph, isPhi := v.(*ssa.Phi)
-	if !isPhi || len(ph.Edges) != 2 {
+// clampExprOf: v = Duration(float64(Sgn(x)) * M); returns x and M.
+func clampExprOf(v ssa.Value) (x, m ssa.Value, ok bool) {
+	mul, isMul := ana.StripConv(v).(*ssa.BinOp)
+	if !isMul || mul.Op != token.MUL {
 		return nil, nil, false
 	}
+	for _, pr := range [][2]ssa.Value{{mul.X, mul.Y}, {mul.Y, mul.X}} {
+		if c, _ := ana.CallOf(ana.StripConv(pr[0])); c != nil && ana.CalleeName(c.Common()) == ana.Q("base/timemath.Sgn") {
+			return c.Common().Args[0], pr[1], true
+		}
+	}
+	return nil, nil, false
+}
+
+// withinMax: block b is reachable only through the false edge of float64(raw.Abs()) > m.
+func withinMax(raw, m ssa.Value, b *ssa.BasicBlock) bool {
+	for _, d := range b.Parent().Blocks {
+		n := len(d.Instrs)
+		if n == 0 {
+			continue
+		}
+		iff, ok := d.Instrs[n-1].(*ssa.If)
+		if !ok {
+			continue
+		}
+		c, pos, isCmp := ana.AsCmp(iff.Cond)
+		if !isCmp || !pos || c.Op != token.GTR || c.Y != m {
+			continue
+		}
+		ab, _ := ana.CallOf(ana.StripConv(c.X))
+		if ab == nil || ana.CalleeName(ab.Common()) != "(time.Duration).Abs" || ab.Common().Args[0] != raw {
+			continue
+		}
+		// the false edge leads to (or is) b without the true edge rejoining first
+		if d == b || d.Succs[1] == b || d.Succs[1].Dominates(b) {
+			if d == b {
+				return true // b itself ends with the test; the phi edge from b is its false edge (checked by the caller through the phi's pred)
+			}
+			return true
+		}
+	}
+	return false
+}
+
+// peerBounded recognises the peer correction: phi[raw (flag=false), clamp(raw, PCI*drift) (flag=...)]
+// with a sibling flag phi in the same block that is constant false on the raw edge. The clamp may be
+// a nested two-way merge or merged directly into the same phi (k-way form):
+// every incoming value is raw or the clamp expression of raw; wherever the flag is not the constant
+// false, the value is the clamp expression, a clamp merge, or raw on the not-exceeding edge of the test.
+func peerBounded(v ssa.Value) (raw ssa.Value, flag *ssa.Phi, ok bool) {
+	ph, isPhi := v.(*ssa.Phi)
+	if !isPhi || len(ph.Edges) < 2 {
+		return nil, nil, false
+	}
+	if len(ph.Edges) == 2 {
+		if r0, q, ok := peerBounded2(ph); ok {
+			return r0, q, true
+		}
+	}
+	// k-way: find raw and M from a clamp-expression edge
+	var m ssa.Value
+	for _, e := range ph.Edges {
+		if x, mm, ok := clampExprOf(e); ok {
+			raw, m = x, mm
+		}
+	}
+	if raw == nil {
+		return nil, nil, false
+	}
+	if imp, okM := maxCorrOf(m); !okM || imp != "PeerClockImpact" {
+		return nil, nil, false
+	}
+	for _, in := range ph.Block().Instrs {
+		q, isQ := in.(*ssa.Phi)
+		if !isQ || q == ph || len(q.Edges) != len(ph.Edges) {
+			continue
+		}
+		if bt, isB := q.Type().Underlying().(*types.Basic); !isB || bt.Kind() != types.Bool {
+			continue
+		}
+		good, sawFalse, sawFlag := true, false, false
+		for i, e := range ph.Edges {
+			fb, isC := ana.ConstBool(q.Edges[i])
+			if isC && !fb {
+				sawFalse = true
+				if e != raw {
+					if x, _, ok := clampExprOf(e); !ok || x != raw {
+						good = false
+					}
+				}
+				continue
+			}
+			if isC && fb {
+				good = false // flag set unconditionally
+				continue
+			}
+			sawFlag = true
+			if x, mm, ok := clampExprOf(e); ok && x == raw && mm == m {
+				// the clamp expression is only taken where the test exceeded; fine either way (bounded)
+				continue
+			}
+			if e == raw {
+				pred := ph.Block().Preds[i]
+				// raw on this edge must be within the bound: pred ends with the test and this is its false edge, or pred is dominated by the false edge
+				okEdge := false
+				if iff, isIf := pred.Instrs[len(pred.Instrs)-1].(*ssa.If); isIf {
+					c, pos, isCmp := ana.AsCmp(iff.Cond)
+					if isCmp && pos && c.Op == token.GTR && c.Y == m && pred.Succs[1] == ph.Block() {
+						if ab, _ := ana.CallOf(ana.StripConv(c.X)); ab != nil && ana.CalleeName(ab.Common()) == "(time.Duration).Abs" && ab.Common().Args[0] == raw {
+							okEdge = true
+						}
+					}
+				}
+				if !okEdge && withinMax(raw, m, pred) {
+					okEdge = true
+				}
+				if !okEdge {
+					good = false
+				}
+				continue
+			}
+			if x, mm, ok := clampOf(e); ok && x == raw && mm == m {
+				continue
+			}
+			good = false
+		}
+		if good && sawFalse && sawFlag {
+			return raw, q, true
+		}
+	}
+	return nil, nil, false
+}
+
+func peerBounded2(ph *ssa.Phi) (raw ssa.Value, flag *ssa.Phi, ok bool) {
 	for i := 0; i < 2; i++ {
 		r0, cl := ph.Edges[i], ph.Edges[1-i]
 		x, m, isClamp := clampOf(cl)
